@@ -13,6 +13,7 @@ extern "C" {
 typedef int (*oracle_fn)(int kind, const unsigned char* a, unsigned alen, const unsigned char* b, unsigned blen, const unsigned char* c, unsigned clen, unsigned sigversion);
 static oracle_fn g_oracle = nullptr;
 void vf_set_oracle(oracle_fn f) { g_oracle = f; }
+__attribute__((constructor)) static void vf_quiet() { btc_logf = btc_logf_dummy; }
 int vf_oracle(int kind, const unsigned char* a, unsigned alen, const unsigned char* b, unsigned blen, const unsigned char* c, unsigned clen, unsigned sigversion) {
     return g_oracle ? g_oracle(kind, a, alen, b, blen, c, clen, sigversion) : 0;
 }
@@ -33,7 +34,7 @@ struct Wr {
     unsigned char* p;
     void u32(uint32_t v) { memcpy(p, &v, 4); p += 4; }
     void u64(uint64_t v) { memcpy(p, &v, 8); p += 8; }
-    void bytes(const unsigned char* d, size_t n) { u32((uint32_t)n); if (n) memcpy(p, d, n); p += n; }
+    void bytes(const unsigned char* d, size_t n) { if (n) memcpy(p + 4, d, n); u32((uint32_t)n); p += n; }
     void items(const std::vector<valtype>& v) { u32((uint32_t)v.size()); for (auto& x : v) bytes(x.data(), x.size()); }
 };
 
